@@ -43,7 +43,23 @@ def mutate_fst(f):
 
 W0, W1 = ['a'], ['a', 'b']
 
+def _self_add(a, o):
+    a.add_transition(sorted(a.states, key=repr)[0] if a.states else 's0', 'b' if type(a).__name__.startswith('Epsilon') or True else 'b', '#new'); a.add_final_state('#new'); return 'mutated'
+def _self_add_eps(a, o):
+    sts = sorted(a.states, key=repr)
+    if type(a).__name__ != 'EpsilonNFA' or len(sts) < 2: return 'skip'
+    a.add_transition(sts[-1], 'epsilon', sts[0]); return 'mutated'
+def _self_remove(a, o):
+    R = F.extract(a)
+    if not R[4]: return 'skip'
+    p_, a_, q_ = sorted(R[4], key=repr)[0]
+    a.remove_transition(p_, 'epsilon' if a_ is None else a_, q_); return 'mutated'
+def _self_final(a, o):
+    sts = sorted(a.states, key=repr)
+    if not sts: return 'skip'
+    (a.remove_final_state if sts[0] in {F.val(x) for x in a.final_states} else a.add_final_state)(sts[0]); return 'mutated'
 FA_OPS = {
+    'SELF.add_transition': _self_add, 'SELF.add_epsilon_transition': _self_add_eps, 'SELF.remove_transition': _self_remove, 'SELF.toggle_final': _self_final,
     'accepts0': lambda a, o: a.accepts(W0), 'accepts1': lambda a, o: a.accepts(W1), 'accepts_eps': lambda a, o: a.accepts([]), 'accepts_b': lambda a, o: (a.accepts(['b']), a.accepts(['b', 'a'])),
     'is_empty': lambda a, o: a.is_empty(), 'is_deterministic': lambda a, o: a.is_deterministic(), 'is_acyclic': lambda a, o: a.is_acyclic(),
     'words2': lambda a, o: s_words(a.get_accepted_words(2)),
@@ -59,7 +75,7 @@ FA_OPS = {
     'kleene_star': lambda a, o: s_fa(a.kleene_star()), 'to_regex': lambda a, o: (lambda r: (r.accepts(W0), r.accepts(W1), r.accepts([])))(a.to_regex()),
     'equivalent_self': lambda a, o: a.is_equivalent_to(a), 'equivalent_other': lambda a, o: (a.is_equivalent_to(o), a == o),
     'to_fst': lambda a, o: (lambda r: (s_fst(r), mutate_fst(r))[0])(a.to_fst()),
-    'to_dict+mutate': lambda a, o: (lambda d: (len(d), d.clear())[0])(a.to_dict()),
+    'to_dict+mutate': lambda a, o: (lambda d: (tuple(sorted(((F.val(p), F.val(x), F.val(q)) for p, by in d.items() for x, tos in by.items() for q in (tos if isinstance(tos, (set, list, tuple, frozenset)) else [tos])), key=repr)), d.clear())[0])(a.to_dict()),
 }
 RE_OPS = {
     'accepts0': lambda r, o: r.accepts(W0), 'accepts1': lambda r, o: r.accepts(W1), 'accepts_eps': lambda r, o: r.accepts([]), 'accepts_b': lambda r, o: (r.accepts(['b']), r.accepts(['b', 'a']), r.accepts(['#msym'])),
@@ -72,6 +88,13 @@ RE_OPS = {
     'tree': lambda r, o: r.get_tree_str(), 'n_symbols': lambda r, o: (r.get_number_symbols(), r.get_number_operators()),
 }
 CFG_OPS = {
+    'remove_epsilon.remove_useless': lambda g, o: s_cfg(g.remove_epsilon().remove_useless_symbols()),
+    'remove_epsilon.is_empty.generating': lambda g, o: (lambda r: (r.is_empty(), tuple(sorted(map(repr, r.get_generating_symbols()))), tuple(sorted(map(repr, r.get_nullable_symbols())))))(g.remove_epsilon()),
+    'eliminate_unit.remove_useless': lambda g, o: s_cfg(g.eliminate_unit_productions().remove_useless_symbols()),
+    'remove_useless.normal_form.contains': lambda g, o: (lambda r: (s_cfg(r.to_normal_form()), r.contains(W0), r.contains(W1)))(g.remove_useless_symbols()),
+    'reverse.reverse': lambda g, o: s_cfg(g.reverse().reverse()), 'normal_form.normal_form': lambda g, o: s_cfg(g.to_normal_form().to_normal_form()),
+    'union_other.contains': lambda g, o: (lambda r: (r.contains(W0), r.contains(W1), r.is_empty(), r.generate_epsilon()))(g.union(o)),
+    'closure.words': lambda g, o: s_words(g.get_closure().get_words(2)),
     'contains0': lambda g, o: g.contains(W0), 'contains1': lambda g, o: g.contains(W1), 'contains_eps': lambda g, o: g.contains([]),
     'is_empty': lambda g, o: g.is_empty(), 'is_finite': lambda g, o: g.is_finite(), 'generate_epsilon': lambda g, o: g.generate_epsilon(),
     'generating': lambda g, o: tuple(sorted(map(repr, g.get_generating_symbols()))), 'nullable': lambda g, o: tuple(sorted(map(repr, g.get_nullable_symbols()))),
@@ -168,6 +191,12 @@ def cases(tier, seed):
         yield {'kind': 'IG', 'obj': IG.random_rules(rng), 'other': IG.random_rules(rng), 'history': hist('IG')}
 
 
+def rebuild(kind, obj, make):
+    """a freshly built object equal to the current state of `obj` (automata can have been mutated by SELF.* operations)"""
+    if kind in ('ENFA', 'NFA', 'DFA'): return F.build(F.extract(obj), dict(F_classes())[kind])
+    return make()
+
+
 def run_op(fn, obj, other):
     try: return ('ok', fn(obj, other))
     except RecursionError: return ('exc', 'RecursionError')
@@ -181,8 +210,10 @@ def check(case):
     s0, o0 = struct(obj), struct(other)
     trail = []
     for name in case['history']:
+        fresh, fresh_other = rebuild(kind, obj, make), rebuild(kind, other, make_other)
         got = run_op(ops[name], obj, other)
-        exp = run_op(ops[name], make(), make_other())
+        exp = run_op(ops[name], fresh, fresh_other)
+        if name.startswith('SELF.'): s0 = struct(obj); trail.append(name); continue          # a mutation of the object itself: from now on `equal object` means equal to the new state
         trail.append(name)
         if json.dumps(got, default=repr, sort_keys=True) != json.dumps(exp, default=repr, sort_keys=True):
             fails.append(fail(f'C19.{kind}.history', f'after {trail[:-1]} the call {name} answers {str(got)[:150]}; a fresh equal object answers {str(exp)[:150]}')); break
